@@ -69,7 +69,8 @@ func checkC16(spec *PropSpec, repo, tier string, seed int, workers int) int {
 	}{{R, "", "scenario_plain_commands"}, {-2, "-stalled", "scenario_stalled_client"},
 		{-3, "-stalled-oversized", "scenario_stalled_client_oversized_message"},
 		{-4, "-extended-cycle", "scenario_extended_query_cycle"}, {-5, "-malformed", "scenario_command_ending_in_an_error"}, {-1, "-discarding", "scenario_discarding"},
-		{-6, "-two-listeners", "scenario_served_on_two_listeners"}, {-7, "-panicking-statement", "scenario_statement_function_panics"}, {-8, "-stalled-in-authentication", "scenario_client_silent_during_authentication"}, {-9, "-stalled-in-handshake", "scenario_client_silent_during_the_handshake"}}
+		{-6, "-two-listeners", "scenario_served_on_two_listeners"}, {-7, "-panicking-statement", "scenario_statement_function_panics"}, {-8, "-stalled-in-authentication", "scenario_client_silent_during_authentication"}, {-9, "-stalled-in-handshake", "scenario_client_silent_during_the_handshake"},
+		{-10, "-copy-in-handler", "scenario_statement_function_reading_a_copy_stream"}}
 	// the scenarios are independent (and z3 is single-threaded): run them side by side
 	rcs := make([]int, len(scenarios))
 	var wgS sync.WaitGroup
